@@ -17,7 +17,7 @@ RULE = ('five Hypothesis sub-checks.  computechi2: A 5-60 x 1-6 (well conditione
         'same seed (incl. seed 0) gives identical a,g from different global RNG states, default mode leaves the caller arrays bit-identical, '
         'non-negative mode keeps a,g >= 0.  pca_solve: acoeff == ivar-weighted projection on the returned eigenspectra, eigenvalues '
         'non-increasing, usemask == number of good spectra per pixel.  Non-trivial: >=1 zero weight and K >= 2 (HMF), >= 3 parameters (computechi2).')
-ASSUMPTIONS = ['computechi2 is given a 2-D design matrix with cond(A sqrt(W)) < 1e3 (constructed); tolerance 1e-9 relative',
+ASSUMPTIONS = ['computechi2 is given a 2-D full-rank design matrix with cond(A sqrt(W)) < 3e4; tolerance 10 x max(1e-9, 1e-13 cond^2) relative (it inverts A^T W A)',
                'pcomp: the derived-variables relation is asserted for standardize=False (with standardize=True pydl adds the centred data back, mirroring the IDL routine; not covered by the statement as written)',
                'HMF / pca_solve spectra are non-degenerate (distinct, non-constant spectra; kmeans returns K centroids); no all-zero ivar column or row',
                'pca_solve returns float32 eigenspectra: projection compared at 2e-4 relative',
@@ -43,13 +43,17 @@ def chi_case(draw):
     m = min(draw(st.sampled_from([3, 4, 2, 6, 5, 1])), n - 2)
     zf = draw(st.sampled_from([0.2, 0.0, 0.4]))
     return dict(n=n, m=max(1, m), seed=draw(st.integers(0, 10 ** 6)), zf=zf, bscale=draw(st.sampled_from([1.0, 1e3, 1e-3])),
-                basis=draw(st.sampled_from(['poly', 'random'])))
+                basis=draw(st.sampled_from(['rawpoly', 'poly', 'random'])))
 
 
 def chi_body(case):
     from pydl.pydlutils.math import computechi2
     n, m, seed = case['n'], case['m'], case['seed']
-    if case['basis'] == 'poly':
+    if case['basis'] == 'rawpoly':
+        # monomials on x = 0..n-1 scaled to [0, 2]: full rank but moderately ill conditioned (cond up to ~1e4)
+        x = np.arange(n, dtype='f8') * (2.0 / max(n - 1, 1))
+        A = np.array([x ** k for k in range(m)]).T
+    elif case['basis'] == 'poly':
         x = np.linspace(-1, 1, n)
         A = np.array([np.polynomial.legendre.legval(x, [0] * k + [1]) for k in range(m)]).T
     else:
@@ -64,15 +68,17 @@ def chi_body(case):
     sq = np.sqrt(w)
     Aw = A * sq[:, None]
     cond = np.linalg.cond(Aw)
-    if not cond < 1e3:
+    if not cond < 3e4:
         note_label('ill-conditioned-skipped')
         return
+    if cond > 1e3:
+        note_label('cond>1e3')
     out = call(computechi2, b.copy(), sq.copy(), A.copy())
     ref = np.linalg.lstsq(Aw, b * sq, rcond=None)[0]
     cov = np.linalg.inv(Aw.T.dot(Aw))
     with judge('computechi2'):
         ac = np.asarray(out.acoeff, dtype='f8')
-        tol = 1e-9 * cond ** 2
+        tol = max(1e-9, 1e-13 * cond ** 2) * 10      # the routine works on A^T W A: relative error ~ eps * cond^2
         check(ac.shape == (m,), 'chi2:acoeff-shape')
         check(bool(np.all(np.abs(ac - ref) <= tol * max(np.abs(ref).max(), 1e-300))), 'chi2:acoeff-not-least-squares', lambda: dict(got=ac.tolist(), want=ref.tolist()))
         yf = np.asarray(out.yfit, dtype='f8')
